@@ -93,8 +93,9 @@ def run_case(case):
         tag += f' (object previously fitted on {pre} data and queried)'
         kind = 'laws'
         np.random.seed(12345)
+    xfit = x.copy()                      # the caller's training buffer; overwritten further down
     try:
-        model.fit(x.copy())
+        model.fit(xfit)
     except Exception as e:
         r.outcome(f'fit-failed:{fam}:{type(e).__name__}')
         r.add(f'fitfail:{fam}')
@@ -305,6 +306,23 @@ def run_case(case):
         except Exception as e:
             r.violation(f'{sig}:ppf-bisect-raises:{type(e).__name__}', f'{tag}: bisect percent_point raised {e}', case=case)
         r.hit('kde-bisect')
+
+    # ---- the fitted model keeps no live reference to the caller's training buffer ------------------------------
+    try:
+        b_cdf = np.asarray(model.cumulative_distribution(fin.copy()), float)
+        b_pdf = np.asarray(model.probability_density(fin.copy()), float)
+        if not np.array_equal(xfit, x):
+            r.violation(f'{sig}:training-data-modified', f'{tag}: fit / queries modified the training array', case=case)
+        xfit[:] = 123.456 + np.arange(len(xfit))
+        a_cdf = np.asarray(model.cumulative_distribution(fin.copy()), float)
+        a_pdf = np.asarray(model.probability_density(fin.copy()), float)
+        r.tr(4)
+        if not (np.array_equal(a_cdf, b_cdf, equal_nan=True) and np.array_equal(a_pdf, b_pdf, equal_nan=True)):
+            r.violation(f'{sig}:model-aliases-training-buffer', f'{tag}: cdf / pdf changed after the caller overwrote the array '
+                        f'that had been passed to fit', case=case)
+    except Exception as e:
+        r.violation(f'{sig}:raises-after-buffer-overwrite:{type(e).__name__}', f'{tag}: query after the training array was '
+                    f'overwritten raised {type(e).__name__}: {e}', case=case)
 
     # ---- the documented shortcuts pdf / cdf / ppf are the same functions as the long names ------------------
     for short, long_, arg in (('pdf', 'probability_density', fin), ('cdf', 'cumulative_distribution', fin), ('ppf', 'percent_point', Q33)):
